@@ -50,8 +50,20 @@ pub mod ext {
         };
 
     // Cell: contents are opaque (DESIGN 1.4)
-    pub assume_specification<T> [std::cell::Cell::<T>::replace] (c: &std::cell::Cell<T>, v: T) -> (r: T);
-    pub assume_specification<T> [std::cell::Cell::<T>::set] (c: &std::cell::Cell<T>, v: T);
+    // Two ghost predicates make calls on a Cell visible to contracts without modelling its contents (DESIGN 2.12):
+    //  * cell_set_allowed(c, v): may-call side -- `set(c, v)` REQUIRES it; a function that owns the cell states in
+    //    its own precondition for which values (and under which conditions) it is true, so every `set` in its body
+    //    has to be justified;
+    //  * cell_was_set(c, v): must-call side -- a monotone history witness ("v has been stored in c at some point"),
+    //    produced only by the postconditions of set/replace; a function's postcondition that demands it can only be
+    //    proved by actually making the call.
+    pub uninterp spec fn cell_set_allowed<T>(c: &std::cell::Cell<T>, v: T) -> bool;
+    pub uninterp spec fn cell_was_set<T>(c: &std::cell::Cell<T>, v: T) -> bool;
+    pub assume_specification<T> [std::cell::Cell::<T>::replace] (c: &std::cell::Cell<T>, v: T) -> (r: T)
+        ensures cell_was_set(c, v);
+    pub assume_specification<T> [std::cell::Cell::<T>::set] (c: &std::cell::Cell<T>, v: T)
+        requires cell_set_allowed(c, v),
+        ensures cell_was_set(c, v);
     #[verifier::external_type_specification] #[verifier::external_body] #[verifier::reject_recursive_types(T)]
     pub struct ExRef<'b, T: ?Sized>(std::cell::Ref<'b, T>);
     pub assume_specification<T: ?Sized> [RefCell::<T>::borrow] (c: &RefCell<T>) -> (r: std::cell::Ref<'_, T>);
